@@ -556,7 +556,8 @@ func c14Deniable(t *rapid.T, ev *evProp) {
 const c14Rule = "two generated families over Ed25519, P-256 and BN256-G1. (hash) a predicate tree Or of 1..4 branches, each an And of 1..4 Reps with 1..3 (scalar,base) terms, scalar names from a pool of 6 and base names from a pool of 5 (so variables are shared across terms and branches), a proven branch index, edge-class secrets, non-proven branches true or with random points, optional trivial single-branch Or, three protocol names: HashProve then HashVerify must accept; " +
 	"one negative from {one secret of the proven branch changed, any single bit flip of the proof, truncation at any length, a public point replaced, a used base replaced, verification against the predicate with a term dropped / two branches exchanged, another protocol name, splice of two honest proofs} must be rejected (prover error or verifier error), never a panic. " +
 	"(deniable) 2..4 participants run the interactive clique protocol in lock step through a harness relay, each proving its own generated statement and verifying its successor plus a random subset; optionally one participant's secret is falsified: honest proofs are accepted by every verifier, the falsified one by none. " +
-	"non-trivial = an applicable negative, or >= 2 branches with proven index != 0, or a shared variable; every deniable run; distinct = distinct rendered case"
+	"non-trivial = an applicable negative, or >= 2 branches with proven index != 0, or a shared variable; every deniable run; distinct = distinct rendered case" +
+	" Added after the sensitivity rounds: degenerate statements (all public points identity; cancelling bases) are excluded from challenge/response mutations; one participant's transport may fail permanently at step 0/1 and must then report no peer as accepted; TestC14_DeniableRushing: the harness is a rushing participant predicting the challenge (four strategies)."
 
 func TestC14_HashProofs(t *testing.T) {
 	ev := evFor("C14")
